@@ -266,7 +266,7 @@ def run_contract(name, tier, seed, limit_s, extra_cases=None):
     glob = spec_globals()
     out = dict(contract=name, cases=0, ok=0, skipped=0, violations=[], error=None, distinct=0, samples=[])
     try:
-        fn = resolve(c.runtime_name or name) if c.lang in ("py", "c") else None
+        fn = resolve(c.runtime_name or name.split("#")[0]) if c.lang in ("py", "c") else None
     except Exception as e:
         out["error"] = "cannot resolve: %r" % (e,)
         return out
